@@ -485,6 +485,7 @@ def oracle_c09(cases):
                       "replay_body": case_text(c, min(k + 1, len(c['ops']) - 1), what), "case": c, "step": k})
     for c in cases:
         taken = {}     # (gid, name) -> parsed dump at snapshot time
+        collided = set()   # nostr ids that were held by two groups after a rollback in this history (open finding restore-nostr-id-collision)
         ops, out = c["ops"], c["impl"]
         for k, op in enumerate(ops):
             t = op.split()
@@ -554,12 +555,18 @@ def oracle_c09(cases):
                 # the by-nostr-id lookup must answer for exactly the groups that hold each id now
                 for nid, ans in after["index"].items():
                     holders = [g for g, gd in after["groups"].items() if gd["rec"][2:].split(",")[1] == nid]
+                    if len(holders) > 1:
+                        # the open finding restore-nostr-id-collision has happened on this id in this history: a rollback brought an id
+                        # back that another group had taken (memory backend).  From here on the single-valued index cannot be right for
+                        # that id (it answers one holder; a later rollback of that holder removes the entry and the other holder is
+                        # lost): anomalies on THIS id are consequences of the listed finding, anomalies on any other id are not
+                        collided.add(nid)
                     if ans == "-" and holders:
-                        fail(c, k, "nostr-index-lost-group", f"after rollback nostr id {nid} finds nothing but group {holders} holds it")
+                        fail(c, k, "restore-nostr-id-collision" if nid in collided else "nostr-index-lost-group", f"after rollback nostr id {nid} finds nothing but group {holders} holds it")
                     if ans != "-":
                         g_ans = int(ans.split(".")[0])
                         if g_ans not in holders:
-                            fail(c, k, "nostr-index-ghost", f"after rollback nostr id {nid} answers group {g_ans} which does not hold it (holders {holders})")
+                            fail(c, k, "restore-nostr-id-collision" if nid in collided else "nostr-index-ghost", f"after rollback nostr id {nid} answers group {g_ans} which does not hold it (holders {holders})")
                         elif after["groups"][g_ans]["rec"][2:].split(",")[9] != ans.split(".")[1]:
                             fail(c, k, "nostr-index-stale", f"after rollback nostr id {nid} answers a stale copy of group {g_ans}")
                 # exactness
